@@ -247,9 +247,14 @@ func generateSearchInstruction(l *ast.AstExpression, offset int, state *GenState
 func generateLoop(l *ast.AstLoop, offset int, state *GenState) ([]SearchInstruction, error) {
 	result := []SearchInstruction{}
 
+	// the body is generated once per unrolled iteration and once more for the loop itself; every
+	// copy declares the same variables, so each one starts from the names known at the loop's entry
+	entry_variables := state.variables
+
 	current_offset := offset
 	if l.Min > 0 && l.Name == "" {
 		for i := 0; i < l.Min; i++ {
+			state.variables = copyVariables(entry_variables)
 			// I kinda hate generating this everytime but I also hate the other way where we have to adjust offset values to keep pointers in the body lined up
 			body, gen_error := generateSearchInstruction(&l.Body, current_offset, state)
 			if gen_error != nil {
@@ -264,6 +269,7 @@ func generateLoop(l *ast.AstLoop, offset int, state *GenState) ([]SearchInstruct
 		return result, nil
 	}
 
+	state.variables = copyVariables(entry_variables)
 	body, gen_error := generateSearchInstruction(&l.Body, current_offset+1, state)
 	if gen_error != nil {
 		return []SearchInstruction{}, gen_error
@@ -302,6 +308,14 @@ func generateLoop(l *ast.AstLoop, offset int, state *GenState) ([]SearchInstruct
 	result = append(result, body...)
 	result = append(result, stop)
 	return result, nil
+}
+
+func copyVariables(variables map[string]int) map[string]int {
+	result := make(map[string]int, len(variables))
+	for name, value := range variables {
+		result[name] = value
+	}
+	return result
 }
 
 func generateBranch(l *ast.AstBranch, offset int, state *GenState) ([]SearchInstruction, error) {
